@@ -7,6 +7,14 @@ ids = [p["id"] for p in props]
 
 # id -> (technique, level text, level note, design ref)
 claimed = {
+ "C04": ("explicit-state exploration of commit / no-op commit / prune / rollback / reopen / export-pin histories; after every step contents, hashes and proofs of every later version are compared with the model, live and on a fresh instance",
+         "All histories over {Set, Remove, SaveVersion with and without writes, DeleteVersionsTo(n) for every n (one or many versions per call, repeated), LoadVersionForOverwriting, reopen, export open/close, ReadEverything} up to the bounds in the evidence, under flush thresholds {150,400,default} x cache {0,3,1000} x fast on/off: after every step every retained version's contents, root hash and proofs equal the model, also on a fresh instance opened on a copy of the storage; requests that must be rejected (n >= latest, version pinned by an open export) return an error and leave the storage byte-identical.",
+         "Bounded: 2-3 keys, depth <= 11 (narrow alphabet) / <= 8 (full alphabet), <= 4 maintenance steps.",
+         "DESIGN.md §4 C04"),
+ "C09": ("explicit-state exploration with a rollback-heavy alphabet, all model oracles after every step, and a twin instance replaying only the surviving history (differential oracle on the raw tree-node records and index)",
+         "All histories with Rollback, LoadVersionForOverwriting(v) and DeleteVersionsFrom(v+1)+LoadVersion(v) for every retained v (incl. latest and first), nested, after pruning, followed by further writes/commits/prunes/reopens: after every step all reads, hashes, version bookkeeping, fast-index coherence and storage reachability equal the model (live and after restart), and the store's tree-node records are byte-identical to those of a twin that replays only the surviving history.",
+         "Bounded: 1-3 keys, depth <= 10, cache {0,2,3,1000}, fast on/off.",
+         "DESIGN.md §4 C09"),
  "C02": ("explicit-state exploration of write/commit/maintenance histories on the real code with an independent reference implementation of the IAVL+ rules as hash oracle; read-only calls explored as bounded deviations",
          "Every SaveVersion hash, the WorkingHash before it, Hash() and the hash of every retained version in every explored state are compared with an independent implementation of the documented insertion/removal/rebalancing/versioning/hashing rules (check/ref), over all write histories on a 7-key set (all rotation cases) and over 3-key histories with reopen / prune / rollback-and-redo / export-import points, under 13 configurations incl. non-default initial versions; each of 12 kinds of read-only call is inserted at every position (bounded number per history) and must not change any later hash.",
          "Trusted: check/ref (written from the docs, no shared code). Bounded: key sets of 3 and 7 keys, depth and deviation bounds in the evidence.",
